@@ -82,6 +82,37 @@ theorem c13_idle_closed (cfg : Cfg) (c : Conn) (hr : c.Rest) (e1 e2 e3 : List Id
   have h3 := closedBy_tick cfg a b _ hb h2
   rw [runIdle_append, runIdle_append, runIdle_append, h3, runIdle_none]
 
+/-- Every state a client script can reach is consistent (the connection table is a map, nobody is
+    both waiting and being served), its clock is past zero, a returned main loop serves nothing, and
+    every one of its connections is at rest in one of the three shapes of `Conn.Rest` — so the
+    liveness theorems apply to every connection of every reachable state. -/
+theorem c13_reachable_good (cfg : Cfg) (ops : List Op) : ((Sys.init cfg).run cfg ops).Good :=
+  good_run cfg _ ops (good_init cfg)
+
+/-- C13, timeouts, at the level of the whole server: take ANY script `pre` and any client `i` that
+    has a connection afterwards, in whatever state.  Let the script go on in any way in which `i`
+    itself does nothing — every other client may connect, send, stall, read, close, the signal may
+    arrive, the clock may tick in any steps — as long as some tick takes the clock past the
+    connection's deadline and the ticks after it add up to more than the linger timeout.  Then
+    `i`'s connection has been closed and its slot returned. -/
+theorem c13_idle_closed_sys (cfg : Cfg) (pre : List Op) (i : Nat) (c : Conn)
+    (hc : ((Sys.init cfg).run cfg pre).conn i = some c)
+    (ops1 ops2 ops3 : List Op) (n1 n2 : Nat)
+    (hf1 : ∀ op ∈ ops1, op.foreign i) (hf2 : ∀ op ∈ ops2, op.foreign i) (hf3 : ∀ op ∈ ops3, op.foreign i)
+    (ha : c.deadline cfg < ((Sys.init cfg).run cfg pre).now + dur ops1 + n1)
+    (hb : lingerTimeoutH1 < (dur ops2 : Int) + n2) :
+    ((Sys.init cfg).run cfg (pre ++ (ops1 ++ [.tick n1] ++ ops2 ++ [.tick n2] ++ ops3))).conn i = none := by
+  have hg := c13_reachable_good cfg pre
+  rw [run_append]
+  generalize (Sys.init cfg).run cfg pre = s at hc ha hg
+  have hx : s.exited = false := by
+    cases he : s.exited with
+    | false => rfl
+    | true =>
+      have := hg.halted he
+      simp [Sys.conn, this, lookupConn] at hc
+  exact sys_idle_closed cfg s i c hg.wf hc (hg.rest i c hc) hx ops1 ops2 ops3 n1 n2 hf1 hf2 hf3 ha hb
+
 /-- HTTP/2, idle: a connection without streams is ended (GOAWAY, then close) by the first sweep
     more than keep-alive-idle seconds after the last HEADERS/DATA frame, and not before. -/
 theorem c13_h2_idle_closed (v : H2View) (now : Int) (hs : v.st = .write) (he : v.streams = []) :
@@ -241,6 +272,20 @@ example : ∀ c', runIdle {} (some exKeepAlive) ([.tick 1001, .wake] ++ [.tick 1
     c'.st = .close ∧ c'.cts ≤ 1002 :=
   c13_idle_fin_sent {} exKeepAlive (Or.inl ⟨rfl, rfl⟩) [.tick 1001, .wake] 1002
     (by intro t ht; simp at ht; omega) (by decide)
+
+/-- client 0 connects and never sends anything (max-read-idle 2); meanwhile client 1 connects, sends a
+    request, reads the answer, the signal does NOT arrive, the clock ticks 1+2 and later 3+3 seconds -/
+example : ((Sys.init {}).run {} ([.open_ 0] ++ ([.open_ 1, .tick 1, .prepare 1 { H := 100 }, .send 1 0] ++ [.tick 2] ++
+    [.read 1, .tick 3] ++ [.tick 3] ++ [.close 1]))).conn 0 = none :=
+  c13_idle_closed_sys {} [.open_ 0] 0 { rts := 1000 } rfl
+    [.open_ 1, .tick 1, .prepare 1 { H := 100 }, .send 1 0] [.read 1, .tick 3] [.close 1] 2 3
+    (by intro op h; simp at h; rcases h with rfl | rfl | rfl | rfl <;> simp [Op.foreign, Op.client])
+    (by intro op h; simp at h; rcases h with rfl | rfl <;> simp [Op.foreign, Op.client])
+    (by intro op h; simp at h; rcases h with rfl; simp [Op.foreign, Op.client])
+    (by decide) (by decide)
+
+example : ((Sys.init { mc := 2 }).run { mc := 2 } [.open_ 0, .open_ 1, .open_ 2]).Good :=
+  c13_reachable_good { mc := 2 } [.open_ 0, .open_ 1, .open_ 2]
 
 /-- a response blocked since second 1000 (max-write-idle 3): released after the sweeps 1004 and 1010 -/
 def exBlocked : Conn := { st := .write, n := 1, inEv := false, outEv := true, wts := 1000, rts := 1000 }
